@@ -3,6 +3,7 @@ import TexcraftModel.Model.C10
 import TexcraftModel.Model.C10Ser
 import TexcraftModel.Model.C10Cst
 import TexcraftModel.Model.C10Num
+import TexcraftModel.Model.C10Body
 
 /-! Driver for C10 (TFM reader front end). Requests (all numbers decimal):
 
@@ -14,12 +15,14 @@ import TexcraftModel.Model.C10Num
 * `ser <headerExtra> <hasChars> <bc> <ec> <nw> <nh> <nd> <ni> <steps> <added> <nk> <ne> <np>`
                                                              → `serializeSizes` of the shape and the first
                                                                failing clause of `ShapeOK` (0 = none)
+* `body <all bytes of the file>`                             → `Body.readFile`: the whole parsed file as integers
 * `num fix|u32|u8 <data code points…>`                      → the number reader's value, span, warnings
 * `cstrt <text code points…>`                               → `warnings=<n> same=<0/1>`: does `renderAll (parse text)` give the text back
 * `cst <k> <k non-ASCII alphanumeric code points> <text code points…>`
                                                              → `Cst.cstModel`: tree and warnings as integers
 * `vf <nw> <nh> <nd> <ni> <n> <n × (w h d i)>`              → clamped indices, then `1`/`0`
                                                                (all in range)
+* `lig <nl> <entry> <redirect target or -1>`                 → `keep <unpacked entry>` / `drop` (exact)
 * `tag <nl> <ne> <kind> <value> <exists01>`                 → `drop` / `keep`
 
 Outcome text: `ok <junk> <12 sizes> <bc> <ec> <22 bounds>` | `err <name> <junk> <payload…>` |
@@ -154,6 +157,43 @@ def handleCstRt (cps : List Nat) : String :=
     let back := Cst.renderAll tree
     s!"warnings={warnings.length} same={b2i (back == Cst.normalize text)}"
 
+/-! ### The whole reader (`Body.readFile`): the parsed file as integers -/
+
+def encOptList (o : Option (List Nat)) : List Int :=
+  match o with
+  | none => [-1]
+  | some l => (l.length : Int) :: l.map Int.ofNat
+
+def encOptNat (o : Option Nat) : Int := match o with | none => -1 | some n => n
+
+def encInts (l : List Int) : List Int := (l.length : Int) :: l
+
+def insertSorted (x : Nat) : List Nat → List Nat
+  | [] => [x]
+  | y :: t => if x < y then x :: y :: t else if x = y then y :: t else y :: insertSorted x t
+
+def encBody (f : Body.File) : List Int :=
+  let h := f.header
+  [(h.checksum : Int), h.designSize] ++ encOptList h.scheme ++ encOptList h.family ++
+  [match h.sevenBitSafe with | none => -1 | some b => b2i b, encOptNat h.face] ++ encInts (h.extra.map Int.ofNat) ++
+  [(f.smallestChar : Int), (f.chars.length : Int)] ++
+  (f.chars.map fun (c, ci) =>
+    [(c : Int)] ++ (match ci.dims with | none => [0, 0, 0, 0, 0] | some (w, hh, d, i) => [1, (w : Int), hh, d, i]) ++
+      (match ci.tag with | none => [0, 0, 0] | some (k, p) => [1, (k : Int), p])).flatten ++
+  encInts f.widths ++ encInts f.heights ++ encInts f.depths ++ encInts f.italics ++
+  [(f.ligKern.instructions.length : Int)] ++
+  (f.ligKern.instructions.map fun i => [encOptNat i.next, (i.right : Int), i.op.1, i.op.2.1, i.op.2.2.1, i.op.2.2.2]).flatten ++
+  [encOptNat f.ligKern.rightBoundary, encOptNat f.ligKern.leftEntry] ++
+  encInts ((f.ligKern.passthrough.foldr insertSorted []).map Int.ofNat) ++
+  encInts f.kerns ++ [(f.exten.length : Int)] ++
+  (f.exten.map fun (a, b, c, d) => [(a : Int), b, c, d]).flatten ++ encInts f.params
+
+def handleBody (bytes : List Nat) : String :=
+  match Body.readFile bytes with
+  | .panic => "panic"
+  | .err _ _ => "err"
+  | .ok f j => s!"ok {b2i j} {showInts (encBody f)}"
+
 def handle (line : String) : String :=
   match words line with
   | "raw" :: len :: bs =>
@@ -190,6 +230,10 @@ def handle (line : String) : String :=
       | .panic (.sectionCast k) => s!"panic section{k} viol={v}"
       | .panic .lfOverflow => s!"panic lfoverflow viol={v}"
     | _ => "bad-request"
+  | "body" :: ws =>
+    match nats? ws with
+    | some ns => handleBody ns
+    | none => "bad-request"
   | "num" :: which :: ws =>
     match nats? ws with
     | some ns => handleNum which ns
@@ -213,6 +257,14 @@ def handle (line : String) : String :=
         showNats ((cs.map fun c => [c.w, c.h, c.d, c.i]).flatten ++ [if ok then 1 else 0])
       | none => "bad-request"
     | _ => "bad-request"
+  | ["lig", nl, e, redir] =>
+    -- exact lig-tag clamp: `redir` = -1 or the redirect target of the word at the entry point
+    match parseNat? nl, parseNat? e, parseInt? redir with
+    | some nl, some e, some r =>
+      match unpackEntry nl e (if r < 0 then none else some r.toNat) with
+      | some u => s!"keep {u}"
+      | none => "drop"
+    | _, _, _ => "bad-request"
   | ["tag", nl, ne, kind, value, ex] =>
     match nats? [nl, ne, value, ex] with
     | some [nl, ne, value, ex] =>
